@@ -35,9 +35,9 @@ func C04(r *core.Report) {
 		}
 	}
 	r.Floor("C04.R1", 12)
-	r.Floor("C04.R2", 4)
-	r.Floor("C04.R3", 2)
-	r.Floor("C04.R4", 8)
+	r.Floor("C04.R2", 3)
+	r.Floor("C04.R3", 1)
+	r.Floor("C04.R4", 7)
 	r.Floor("C04.R5", 9)
 	c04ReaderCapsCoverWriter(r)
 	c04EntryCodecRoundTrip(r)
@@ -46,11 +46,11 @@ func C04(r *core.Report) {
 	c04LegacyValueWidth(r)
 	c04HashOfTheKeyRead(r)
 	c04SpillFileFlags(r)
-	r.Floor("C04.R11", 2)
+	r.Floor("C04.R11", 1)
 	r.Floor("C04.R10", 2)
-	r.Floor("C04.R9", 2)
-	r.Floor("C04.R8", 2)
-	r.Floor("C04.R7", 5)
+	r.Floor("C04.R9", 1)
+	r.Floor("C04.R8", 1)
+	r.Floor("C04.R7", 3)
 	r.Floor("C04.R6", 1)
 }
 
@@ -288,6 +288,12 @@ func c04Layout(r *core.Report) {
 			}
 			a, b := norm(bs), norm(rs)
 			da, db := defOf(bs), defOf(rs)
+			// the value-size operand written in place instead of through a local: uint8(HashSize) + uint8(b.getValueSize())
+			if sa, ra, oka := strideShape(p, bs); oka {
+				if sb2, rb, okb := strideShape(p, rs); okb {
+					a, b, da, db = sa, sb2, ra, rb
+				}
+			}
 			r.Check(a == b && da == db && da != "", rule, pk+"#entry-stride-agrees", posP(r, rs.Pos()), fmt.Sprintf("builder and reader compute the stride as %s with offsetSize = %s", a, da),
 				fmt.Sprintf("the builder computes the entry stride as %s (offset size: %s) but the reader as %s (offset size: %s): entries are written and read with different widths", a, da, b, db))
 		}
@@ -1299,4 +1305,50 @@ func valueOnlyOnHashMatch(r *core.Report, rule string) {
 		r.Check(why == "", rule, pk+".(*Bucket).Lookup#value-only-on-hash-match", posP(r, f.Pos()), "a value is returned only for an entry whose stored hash equals the hash of the requested key",
 			why+": an absent key that lands in the bucket is answered with another key's value instead of not-found")
 	}
+}
+
+// strideShape: the single return of f is a sum; its operands are rendered with the operand that stands for the value size
+// (a local assigned once, or a call written in place) replaced by ‹vs›; the role of that operand is returned separately.
+func strideShape(p *core.Prog, f *core.Func) (shape string, role string, ok bool) {
+	info := f.Pkg.TypesInfo
+	var ret ast.Expr
+	n := 0
+	ast.Inspect(f.Body, func(m ast.Node) bool {
+		if rt, isRet := m.(*ast.ReturnStmt); isRet && len(rt.Results) == 1 {
+			ret = rt.Results[0]
+			n++
+		}
+		return true
+	})
+	be, isBin := core.Unparen(ret).(*ast.BinaryExpr)
+	if n != 1 || !isBin || be.Op != token.ADD {
+		return "", "", false
+	}
+	render := func(e ast.Expr) string {
+		e = core.Unparen(e)
+		conv := ""
+		if c, isCall := e.(*ast.CallExpr); isCall && len(c.Args) == 1 {
+			if tv, isT := info.Types[c.Fun]; isT && tv.IsType() {
+				conv = core.ExprStr(c.Fun)
+				e = core.Unparen(c.Args[0])
+			}
+		}
+		inner := core.ExprStr(e)
+		if _, isC := core.ConstInt(info, e); !isC {
+			src := e
+			if o := core.ObjOf(info, e); o != nil {
+				if d := singleDef(f, o); d != nil {
+					src = d
+				}
+			}
+			role = valueSizeRole(p, f, src)
+			inner = "‹vs›"
+		}
+		if conv != "" {
+			return conv + "(" + inner + ")"
+		}
+		return inner
+	}
+	shape = render(be.X) + "+" + render(be.Y)
+	return shape, role, role != ""
 }
